@@ -298,6 +298,44 @@ func BuildSelect(query *Query, slct *sqlparser.Select) error {
 			}
 		}
 	}
+	// a key qualified with the query's own table or alias that no select item
+	// spells that way (SELECT id FROM users ORDER BY users.id, SELECT id FROM
+	// users u ORDER BY u.id) is the column the select list shows for it
+	for i, order := range query.orderByDefinition {
+		bare := ""
+		switch {
+		case len(query.alias) > 0 && strings.HasPrefix(order.Key, query.alias+"."):
+			bare = order.Key[len(query.alias)+1:]
+		case len(query.table) > 0 && strings.HasPrefix(order.Key, query.table+"."):
+			bare = order.Key[len(query.table)+1:]
+		}
+		if len(bare) == 0 {
+			continue
+		}
+		for _, item := range query.selectDefinition.Exprs {
+			switch item := item.(type) {
+			case *sqlparser.StarExpr:
+				{
+					// the rows of an aliased table are shown under the alias:
+					// there the qualified key is the path to the column
+					if len(query.alias) == 0 {
+						query.orderByDefinition[i].Key = bare
+					}
+				}
+			case *sqlparser.AliasedExpr:
+				{
+					qualifier, name, err := BuildColumnName(item.Expr)
+					if err != nil || len(qualifier) != 0 || name != bare {
+						continue
+					}
+					query.orderByDefinition[i].Key = item.ColumnName()
+					if len(item.As.String()) > 0 {
+						query.orderByDefinition[i].Key = item.As.String()
+					}
+				}
+			}
+		}
+	}
 	return nil
 }
 
